@@ -42,7 +42,8 @@ def case(draw, tier):
     np_, nn = draw(gen.sizes(0, 3)), draw(gen.sizes(0, 4 if tier == "quick" else 7))
     return {"header": hdr, "prior": draw(st.lists(row, min_size=np_, max_size=np_)), "new": draw(st.lists(row, min_size=nn, max_size=nn)),
             "op": draw(st.sampled_from(["todb", "appenddb"])), "handle": draw(st.sampled_from(HANDLES)), "commit": draw(st.booleans()),
-            "source_kind": draw(st.sampled_from(["list", "pipeline"])),
+            # ("fromdb-same-connection": the rows to load are themselves read with fromdb() through the caller's connection)
+            "source_kind": draw(st.sampled_from(["list", "pipeline", "fromdb-same-connection"])),
             # the documented schema= argument, on a connection where a TEMP table of the same name shadows the target
             "schema": draw(st.sampled_from(["none", "none", "temp-shadow"])),
             # the exception type of the injected failure, per crash point (a loader may catch TypeError, IndexError ... for
@@ -58,6 +59,19 @@ def _q(n):
 
 
 _COLS = {"hdr": None}   # header of the table under test: the harness reads and writes columns BY NAME, in this order
+
+
+class _Rows(object):
+    """A view with a known length (Failing asks for it to place a fault at exhaustion)."""
+
+    def __init__(self, view, n):
+        self.view, self.n = view, n
+
+    def __iter__(self):
+        return iter(self.view)
+
+    def __len__(self):
+        return self.n
 
 
 def _mkdb(path, hdr, prior, colperm=None):
@@ -109,6 +123,12 @@ def check(case, ctx):
         if case["source_kind"] == "pipeline":
             src = etl.convert(etl.select(src, lambda r: True), 0, lambda v: v)
         con = cur = None
+        if case["source_kind"] == "fromdb-same-connection" and handle != "filename":
+            c0 = sqlite3.connect(path)
+            c0.execute("CREATE TABLE src_t (%s)" % ", ".join(_q(h) for h in hdr))
+            c0.executemany("INSERT INTO src_t VALUES (%s)" % ", ".join("?" * len(hdr)), [tuple(r) for r in new])
+            c0.commit()
+            c0.close()
         if handle == "filename":
             dbo = path
         else:
@@ -120,6 +140,9 @@ def check(case, ctx):
                 dbo = cur
             else:
                 dbo = lambda: con.cursor()  # noqa
+        if case["source_kind"] == "fromdb-same-connection" and con is not None:
+            src = Failing(_Rows(etl.fromdb(con, "SELECT * FROM src_t ORDER BY rowid"), len(rows)), at, kind)
+            ctx.labels.append("source:fromdb-same-connection")
         shadow = case.get("schema") == "temp-shadow" and con is not None
         skw = {}
         SHADOW_ROWS = [tuple(["shadow"] * len(hdr))]
@@ -134,9 +157,10 @@ def check(case, ctx):
             try:
                 fn(src, dbo, "t", commit=commit, **skw)
             except Boom as b:
-                raised = b
+                raised = b.with_traceback(None)   # (as after `except ...: pass`: the frames of the failed call are gone)
             except Exception as ex:
                 return exc_fail("%s/%s" % (op, handle), ex)
+            src = None
             # what a fresh connection sees now, before the harness touches the caller's connection
             try:
                 seen = _read(path)
